@@ -202,6 +202,9 @@ class CanaryDeployer(Entity):
         self._server_factory = server_factory
         self._stages = stages or list(self.DEFAULT_STAGES)
         self._metric_evaluator = metric_evaluator or ErrorRateEvaluator()
+        if evaluation_interval <= 0:
+            # a periodic timer with a zero period re-arms itself at the current instant forever
+            raise ValueError(f"evaluation_interval must be > 0, got {evaluation_interval}")
         self._evaluation_interval = evaluation_interval
 
         self._canary: Entity | None = None
